@@ -3,8 +3,8 @@
 
 Confirms a seeded change in a scratch worktree (outside /repo and /verif):
   1. demo passes on the clean tree, fails with the patch;
-  2. the unedited test suite still passes every test of BASELINE.stable_pass (full suite, serialised
-     with a lock because tests/test_setup.py uses fixed TCP ports);
+  2. the unedited test suite still passes every test of BASELINE.stable_pass (full suite, in a private
+     network namespace because tests/test_setup.py uses fixed TCP ports);
   3. the quick check of PROP, pointed at the patched worktree (VERIF_REPO), reports a violation.
 Stores patch, demo and meta.json under /verif/seeded/<seed-id>/ and removes the worktree.
 """
@@ -63,10 +63,10 @@ def main():
         if not no_suite:
             base = json.load(open("/root/.vp/BASELINE.json"))
             junit = wt + ".junit.xml"
-            with open("/tmp/suite.lock", "w") as lk:
-                fcntl.flock(lk, fcntl.LOCK_EX)
-                rc, out = sh(f"cd {wt} && {PY} -m pytest -ra -q -p no:cacheprovider --timeout=900 --continue-on-collection-errors --junitxml={junit}",
-                             env={"PYTHONDONTWRITEBYTECODE": "1"}, timeout=3000)
+            # a private network namespace per run: the suite binds fixed TCP ports, this lets several confirmations run at once
+            rc, out = sh(f"unshare -n sh -c 'ip link set lo up; cd {wt} && {PY} -m pytest -ra -q -p no:cacheprovider --timeout=900 "
+                         f"--continue-on-collection-errors --junitxml={junit}'",
+                         env={"PYTHONDONTWRITEBYTECODE": "1"}, timeout=3000)
             ok = passed_tests(junit)
             lost = sorted(set(base["stable_pass"]) - ok)
             meta["suite_summary"] = out.strip().splitlines()[-1] if out.strip() else ""
